@@ -61,6 +61,13 @@ def check(run):
     # also drive the history / limit / C-API commands on malformed input (they keep std::string inputs)
     for (inp, base, ops, _) in urlcorr.gen_cases(rng, n // 2, hist_frac=0.7, utf8_only=False):
         lines.append(urlcorr.op_line(rng.choice(["seqagg", "sequrl"]), None, inp, base, ops))
+    # URLPattern's canonicalisation callbacks called directly, half of them under a small configured maximum length (their dummy URLs
+    # "https://dummy.test" / "fake://fake-url" do not parse then: known_findings fixed C02 62f303a)
+    for _ in range(n // 4):
+        comp = rng.choice(["protocol", "username", "password", "hostname", "ipv6hostname", "port", "portproto", "pathname", "opaquepathname",
+                           "search", "hash"])
+        lim = f" L={rng.choice([0, 1, 5, 12, 14, 15, 16, 17, 18, 19, 20, 25, 40])}" if rng.random() < 0.5 else ""
+        lines.append(f"patcanon {comp} {hx(blob(rng))} {hx(rng.choice([b'', b'http', b'https:', b'foo', blob(rng)]))}{lim}")
     pos = 0
     chunk = 400
     restarts = 0
